@@ -34,6 +34,13 @@ func checks() []check {
 		{ID: "C07", Level: "model_checking", Parts: []part{
 			{Name: "pool-faults", Pkg: "pkg/eni", Run: "^TestVerifC07$", Sets: []string{"weave"}, Weave: []string{"pkg/eni"}, ShardsQ: 10, ShardsT: 15},
 		}},
+		{ID: "C10", Level: "model_checking", Parts: []part{
+			{Name: "podeni-state-machine", Pkg: "pkg/controller/pod-eni", Run: "^TestVerifC10$", Sets: []string{"weave"}, Weave: []string{"pkg/controller/pod", "pkg/controller/pod-eni", "pkg/vswitch"}, ShardsQ: 16, ShardsT: 16},
+		}},
+		{ID: "C11", Level: "model_checking", Parts: []part{
+			{Name: "fixed-ip-and-leak-gc", Pkg: "pkg/controller/pod-eni", Run: "^TestVerifC11$", Sets: []string{"weave"}, Weave: []string{"pkg/controller/pod", "pkg/controller/pod-eni", "pkg/vswitch"}, ShardsQ: 16, ShardsT: 16},
+			{Name: "leak-collector-populations", Pkg: "pkg/controller/pod-eni", Run: "^TestVerifC11Leak$", Sets: []string{"weave"}, Weave: []string{"pkg/controller/pod", "pkg/controller/pod-eni", "pkg/vswitch"}, ShardsQ: 8, ShardsT: 16},
+		}},
 		{ID: "C14", Level: "model_checking", Parts: []part{
 			{Name: "u32v4", Pkg: "pkg/tc", Run: "^TestVerifC14U32v4$"},
 			{Name: "u32v6", Pkg: "pkg/tc", Run: "^TestVerifC14U32v6$"},
